@@ -74,6 +74,7 @@ func runC05(ctx *core.Ctx) {
 		"channel gaps in load runs are accepted iff output_dropped_count >= number of missing results")
 	// the load runs go first so that their verdicts are among the printed violations
 	runC05Load(ctx)
+	runC05Concurrent(ctx)
 	n := ctx.N(300, 8000)
 	ctx.Cases("c05", n, workers(), func(i int, r *rand.Rand) {
 		c := genC05(core.CaseRef{Stream: "c05", Index: i}, r)
